@@ -243,6 +243,8 @@ def _shard_task(modname, subname, tier, seed, shard, nshards, budget_s):
                     st['samples'].append(shrink_for_sample(case))
         for l in info.get('labels', ()):
             st['labels'][l] += 1
+        for fid, k in (info.get('excluded') or {}).items():
+            st['excluded'][fid] += k     # calls skipped by construction because of a known finding
 
     # ---- exhaustive part
     if sub.enum is not None:
@@ -437,7 +439,17 @@ def _run_property(prop_id, mod, tier, seed, only=None, jobs=None):
             harness_errors.append(f'cannot load witness {wpath}: {e}')
             continue
         ACTIVE_KNOWN.discard(f['id'])
-        kind, info = run_case(sub, w['case'])
+        if f.get('isolate'):
+            # the witness is known to crash the interpreter (e.g. a segfault in a C extension): replay it in a child process
+            import subprocess
+            try:
+                r = subprocess.run([os.path.join(HERE, 'check'), prop_id, '--replay', wpath], capture_output=True, text=True, timeout=60,
+                                   preexec_fn=lambda: __import__('resource').setrlimit(__import__('resource').RLIMIT_AS, (4 << 30, 4 << 30)))
+                kind, info = ('fail', f'child exit code {r.returncode}') if r.returncode != 0 and r.returncode != 2 else (('harness', r.stderr[-300:]) if r.returncode == 2 else ('ok', {}))
+            except subprocess.TimeoutExpired:
+                kind, info = 'fail', 'the witness did not terminate within 60 s'
+        else:
+            kind, info = run_case(sub, w['case'])
         if f['status'] == 'known':
             ACTIVE_KNOWN.add(f['id'])
             if kind == 'fail':
